@@ -14,8 +14,12 @@ claim("C09", "exploration",
   "Operations and documents are sampled by seed; for each sampled (operation, document) the fault offsets are enumerated exhaustively (every reader offset, every writer offset) and fragmentations exhaustively for documents up to 11 bytes. Oracle: same value, byte count and residual stream as the contiguous run; any failure before the document is complete must surface as a non-nil error.",
   "Readers never return (0,nil) for a non-empty buffer and writers never return n<len with nil error (io contracts). A baseline that fails on contiguous delivery is skipped. Map-backed values are encoded only with one key per level because Go map iteration order is not controllable.",
   "DESIGN.md 5 C09")
+claim("C10", "exploration",
+  "deterministic simulation: encrypter task -> simulated link -> decrypter task where the link's delivery schedule is the XORKeyStream call pattern; byte-at-a-time AES-CFB8 reference on the wire-tap; seeded call-length histories x buffer relations driven directly; encrypted(+compressed) Conn pair under the seeded scheduler",
+  "Seeded search over call histories (lengths dense around 1, 15..17, 31..34; in place / disjoint / larger dst; both directions; 16/24/32-byte keys) and over link schedules; every output compared with an independent byte-at-a-time CFB8 over crypto/aes; encrypted Conn pairs exchange packet histories in both directions with the reference-decrypted wire re-parsed by the independent frame reader.",
+  "crypto/aes trusted as block cipher; callers respect the cipher.Stream aliasing contract (entirely overlapping or disjoint).",
+  "DESIGN.md 5 C10")
 PENDING.update({
- "C10": "claimed in DESIGN.md; check under construction (not yet registered)",
  "C14": "claimed in DESIGN.md; check under construction (not yet registered)",
  "C15": "claimed in DESIGN.md; check under construction (not yet registered)",
  "C16": "claimed in DESIGN.md; check under construction (not yet registered)",
